@@ -512,7 +512,7 @@ def run(ck):
     # Src_condslice_total, Src_eval_instructions_step_no_panic, Src_parser_* over the index-faithful parser ...)
     for tie in ("parser", "expand", "registry", "cond", "condslice", "runner", "eval", "alias", "onerror", "strings", "cli",
                 "findcmds", "collections", "var", "include", "flowfor", "flowfn", "regcmds", "regfn", "json", "smallnat", "fs",
-                "codeccmds"):
+                "codeccmds", "mapload"):
         try:
             ck.source_tie(tie)
         except KeyError:
